@@ -261,6 +261,35 @@ theorem addr_adjust_rule (d : CountDoc) (h : d.wf = true) (i : Nat) (r : CountRe
         exact ⟨r.sample, ⟨r, List.mem_of_getElem? hr, rfl⟩, ha⟩)
     simpa [CountRec.sample, List.map_map] using this
 
+/-- Sign rule of heap records (the grammar admits negative in-use columns, `(-?\d+)`): every
+count other than exactly 0 — negative ones included — gives the block-size label `bytes / count`
+(Go integer division) and, in a sampled (`v2`) profile with rate > 1 and non-zero bytes, goes
+through the unsampling function; a printed negative pair is read back with its sign. -/
+theorem heap_negative_counts_rule (scale : ScaleFn) (hasAlloc : Bool) (rate : Nat) (inN inB : Int) (alN alB : Nat)
+    (addrs : List Nat) (hn : inN ≠ 0) :
+    (heapSample scale hasAlloc true rate inN inB alN alB addrs).numLabel = [(asc "bytes", [goDiv inB inN])] ∧
+    (inB ≠ 0 → 1 < rate → unsample scale true rate inN inB = scale inN inB rate) ∧
+    (-(two63 : Int) ≤ inN → inN < (two63 : Int) → parseI64Z (intStr inN) = some inN) := by
+  refine ⟨by simp [heapSample, hn], ?_, fun h1 h2 => parseI64Z_intStr h1 h2⟩
+  intro hb hr
+  have : ¬ rate ≤ 1 := by omega
+  simp [unsample, hn, hb, this]
+
+/-- Sign rule of contention attributes (`strconv.ParseInt(_, 0, 64)` admits negative values):
+nothing is scaled unless the sampling period is positive, and the delay only when cycles/second
+is positive as well. -/
+theorem contention_sign_rule (cyc : CycFn) (st : ContState) (cycles count : Nat) (addrs : List Nat) :
+    (st.period ≤ 0 → (contSample cyc st cycles count addrs).values = [(count : Int), (cycles : Int)]) ∧
+    (0 < st.period → st.cpuHz ≤ 0 →
+      (contSample cyc st cycles count addrs).values = [wrapI64 ((count : Int) * st.period), (cycles : Int)]) := by
+  constructor
+  · intro h
+    have h1 : ¬ (st.period > 0) := by omega
+    simp [contSample, h1]
+  · intro h1 h2
+    have h3 : ¬ (st.cpuHz > 0) := by omega
+    simp [contSample, h1, h3]
+
 /-- Address rule where the leaf is not a call: threadz and binary CPU samples keep the first
 address and move the others back by one. -/
 theorem addr_adjust_rule_leaf (leaf : Nat) (callers : List Nat) (period count : Nat) :
@@ -328,6 +357,16 @@ example : PbRejects (Codec.parseUncompressed (printCount
 example : (({ kind := .heapV2, totInuseN := 1, totInuseB := 2, totAllocN := 3, totAllocB := 4, rate := some 1024, pad := 1, width := 0,
               recs := [{ fill := [], indent := 2, inuseN := 1, inuseB := 512, allocN := 2, allocB := 1024, addrs := [4198401] }],
               post := [], libs := true, map := none } : HeapDoc).wf) = true := by decide
+
+-- a difference profile: negative in-use columns (seeded change C14-l: `-3: -3072` has block size 1024)
+example : (({ kind := .heapV2, totInuseN := 1, totInuseB := 2, totAllocN := 1, totAllocB := 2, rate := some 524288, pad := 0, width := 0,
+              recs := [{ fill := [], indent := 0, inuseN := -3, inuseB := -3072, allocN := 0, allocB := 0, addrs := [4198401] }],
+              post := [], libs := false, map := none } : HeapDoc).wf) = true ∧ goDiv (-3072) (-3) = 1024 := by decide
+
+-- contention attributes with negative values
+example : (({ head := .mutex, attrs := [{ fill := [], indent := 0, key := .samplingPeriod, value := -5, spaced := true }], width := 0,
+              recs := [{ fill := [], indent := 0, cycles := 10, count := 2, gap := 0, addrs := [4198401] }],
+              post := [], map := none } : ContDoc).wf) = true := by decide
 
 example : (({ big := true, w64 := false, period := 10000, recs := [{ count := 5, addrs := [4198401, 4198500] }],
               eod := true, map := none } : CpuDoc).wf) = true := by decide
